@@ -8,9 +8,17 @@ import (
 
 var concOps = []string{"reg", "regctx", "regboth", "unreg", "dial", "dialctx"}
 
+var caseSchemes = [][]string{{"SimX"}, {"simx", "SIMX"}, {"Simy", "simY", "simz"}, {"Sim-X.1", "simy"}, {"sImx", "siMx"}}
+
 func genConc(r *core.Rand, tier string) Plan {
 	p := Plan{Arm: "conc"}
 	p.Schemes = defaultSchemes[:r.Range(1, 3)]
+	if r.Chance(0.25) {
+		// spellings that differ in letter case (the engine adds the lower-case one)
+		p.Schemes = core.Choice(r, caseSchemes)
+	}
+	spell, _ := expandSpellings(p.Schemes)
+	nSpell := len(spell)
 	nc := r.Range(2, 6)
 	maxSteps := 12
 	if tier == "thorough" && r.Chance(0.3) {
@@ -25,7 +33,7 @@ func genConc(r *core.Rand, tier string) Plan {
 		p.Clients[i].Steps = make([]Step, 0, left[i])
 	}
 	step := func() Step {
-		return Step{Op: concOps[r.Pick(w...)], Scheme: r.Intn(len(p.Schemes))}
+		return Step{Op: concOps[r.Pick(w...)], Scheme: r.Intn(nSpell)}
 	}
 	// Identical instants: the Go runtime orders fake timers that fire at the same
 	// instant by a per-timer random number (runtime/time.go, "randomizes order
@@ -98,8 +106,8 @@ func genConc(r *core.Rand, tier string) Plan {
 }
 
 var (
-	urlSchemes  = []string{"simx", "simy", "ax25", "ax25+agwpe", "ax25+linux", "ardop", "telnet", "serial-tnc", "pactor", "vara", "a", "x-y.z+1"}
-	urlHosts    = []string{"", "", "axport", "0", "ax0", "localhost:8000", "127.0.0.1:8515", "server.winlink.org:8772", "[::1]:8000", "[fe80::1]", "Mixed.Case.Host", "tnc-1.local:1", "a", "wl2k.example.", "10.0.0.1",
+	urlSchemes = []string{"simx", "simy", "ax25", "ax25+agwpe", "ax25+linux", "ardop", "telnet", "serial-tnc", "pactor", "vara", "a", "x-y.z+1"}
+	urlHosts   = []string{"", "", "axport", "0", "ax0", "localhost:8000", "127.0.0.1:8515", "server.winlink.org:8772", "[::1]:8000", "[fe80::1]", "Mixed.Case.Host", "tnc-1.local:1", "a", "wl2k.example.", "10.0.0.1",
 		"tnc.local:32767", "tnc.local:32768", "localhost:49152", "127.0.0.1:65535", "[::1]:65535", "h:0"}
 	hostParams  = []string{"/dev/ttyS0", "ax0", "/dev/serial/by-id/usb-FTDI_FT232R_USB_UART_A50285BI-if00-port0", "COM3", "192.168.1.2:8515", "a b", "x&y=z", "höst", "%2F", "host?#", "localhost:8000"}
 	callLetters = "ABCDEFGHIJKLMNOPQRSTUVWXYZabcdefghijklmnopqrstuvwxyz0123456789"
